@@ -172,13 +172,20 @@ def rewrite_imports(source_code: str, mapping: MappingType) -> Union[str, None]:
             # Get line numbers
             start_line = node.lineno - 1  # Convert to 0-based index
             end_line = getattr(node, 'end_lineno', node.lineno) - 1
-            replacements.append((start_line, end_line, replacement_lines))
+            replacements.append((start_line, end_line, node.col_offset, node.end_col_offset,
+                                 replacement_lines))
 
     if len(replacements) == 0:
         return None
 
     # Apply replacements in reverse order to maintain line indices
-    for start_line, end_line, replacement_lines in reversed(replacements):
+    for start_line, end_line, col, end_col, replacement_lines in reversed(replacements):
+        # Keep whatever shares the first / last physical line with the import statement
+        prefix = lines[start_line].encode()[:col].decode()
+        suffix = lines[end_line].encode()[end_col:].decode()
+        if prefix.strip() or suffix.strip():
+            statements = "; ".join(line.rstrip("\n") for line in replacement_lines)
+            replacement_lines = [prefix + statements + suffix]
         lines[start_line:end_line+1] = replacement_lines
 
     return ''.join(lines)
